@@ -53,9 +53,11 @@ class FieldArray:
 
   def __add__(self, other):
     if isinstance(other, list):
-      self._data += other
+      return gfapy.FieldArray(self.datatype, self._data + other)
     elif isinstance(other, gfapy.FieldArray):
-      self._data += other._data
+      return gfapy.FieldArray(self.datatype, self._data + other._data)
+    else:
+      return NotImplemented
 
   def __iter__(self):
     return self._data.__iter__()
